@@ -124,6 +124,10 @@ def _user_fact(n):
     return float(math.factorial(int(round(n))))
 
 
+UNSET = '<tolerance not configured>'
+DEFAULT_TOLERANCE = 1e-12       # docs/grading_math/sum_grader.md
+
+
 def executions(prob):
     """
     Runs the problem once for every combination of RNG draws.  Yields (xs, obs):
@@ -137,6 +141,8 @@ def executions(prob):
     def body(ch):
         cfg = {'answers': dict(prob['answers']), 'even_odd': prob.get('even_odd', 0),
                'tolerance': prob.get('tolerance', 1e-9), 'samples': samples}
+        if cfg['tolerance'] == UNSET:
+            del cfg['tolerance']        # the documented default (an absolute 1e-12) applies
         if prob.get('positions') is not None:
             cfg['input_positions'] = dict(prob['positions'])
         if prob.get('infty_val') is not None:
@@ -352,8 +358,8 @@ class Equivalence(Family):
 
 # ======================================================================================== 2. tolerance
 
-TOLS = (1e-9, 0.01, '0.1%', '1%', '50%')
-PERTS = (('scale', '0.000000000001'), ('scale', '0.0005'), ('scale', '0.002'), ('scale', '0.005'),
+TOLS = (1e-9, 0.01, '0.1%', '1%', '50%', UNSET)
+PERTS = (('scale', '0.000000000001'), ('scale', '0.00002'), ('scale', '0.0005'), ('scale', '0.002'), ('scale', '0.005'),
          ('scale', '0.02'), ('scale', '0.4'), ('scale', '0.6'), ('scale', '-0.4'),
          ('add', '0.0000000001'), ('add', '0.00000001'), ('add', '0.001'), ('add', '0.1'))
 TOL_SUMMANDS = ('lin', 'sq', 'pow2', 'cpow', 'vec')
@@ -365,7 +371,8 @@ class Tolerance(Family):
     timeout = 20.0
     rule = ('author sum_{n=a..b} f(n), a <= b in [-R, R] (R = 2 quick, 5 thorough) x even_odd x f in %s x '
             '(quick: lin, cpow, vec only) x tolerance in %s x student summand f*(1+d) or f+e with (kind, amount) in %s; expected: '
-            '|difference| against the tolerance (a percentage is taken of the AUTHOR\'s value) with a 1%% guard '
+            '|difference| against the tolerance (a percentage is taken of the AUTHOR\'s value; not configured = the documented '
+            'absolute 1e-12) with a 1%% guard '
             'band; non-trivial = author sum non-empty'
             % (list(TOL_SUMMANDS), list(TOLS), list(PERTS)))
 
@@ -406,9 +413,10 @@ class Tolerance(Family):
         prob, author, student, exact = self.build(case)
         nontriv = bool(ref.index_set(a, b, p, 1000))
         return judge(self.name, prob,
-                     lambda xs: ref_verdict(author, student, p, 1000, TOLS[ti], xs, exact), nontriv,
+                     lambda xs: ref_verdict(author, student, p, 1000,
+                                            DEFAULT_TOLERANCE if TOLS[ti] == UNSET else TOLS[ti], xs, exact), nontriv,
                      sig_of=lambda exp, got, obs: 'tolerance:%s:%s-but-%s'
-                     % ('percent' if isinstance(TOLS[ti], str) else 'absolute', exp, got))
+                     % ('default' if TOLS[ti] == UNSET else 'percent' if isinstance(TOLS[ti], str) else 'absolute', exp, got))
 
 
 # ======================================================================================== 3. input positions
